@@ -8,6 +8,7 @@ import (
 	"go/token"
 	"go/types"
 	"math/big"
+	"sort"
 	"strings"
 
 	"golang.org/x/tools/go/ssa"
@@ -847,6 +848,22 @@ func (st *State) resolveSpecType(name string, env *specEnv) (types.Type, Sort) {
 				}
 			}
 		}
+		// any other package of the program, by name (sorted for determinism)
+		var cands []string
+		for _, sp := range st.eng.prog.SSA.AllPackages() {
+			if sp.Pkg != nil && sp.Pkg.Name() == pn {
+				if _, ok := sp.Pkg.Scope().Lookup(tn).(*types.TypeName); ok {
+					cands = append(cands, sp.Pkg.Path())
+				}
+			}
+		}
+		if len(cands) > 0 {
+			sort.Strings(cands)
+			if sp := st.eng.prog.SSA.ImportedPackage(cands[0]); sp != nil {
+				o := sp.Pkg.Scope().Lookup(tn).(*types.TypeName)
+				return o.Type(), te.SortOf(o.Type())
+			}
+		}
 	}
 	if env.pkg != nil {
 		if o, ok := env.pkg.Scope().Lookup(name).(*types.TypeName); ok {
@@ -918,6 +935,22 @@ func (st *State) specCall(e *SExpr, env *specEnv) Value {
 			case "str_bytes":
 				return Value{S: SBytes, Term: app("str_bytes", x.Term)}
 			}
+		case "local":
+			// local(x): the program variable x even if its name is a specification keyword (e.g. result)
+			if len(args) == 1 && args[0].Kind == KIdent {
+				if env.frame != nil {
+					if v, ok := st.localByName(env.frame, args[0].Name, env); ok {
+						return v
+					}
+				}
+				if v, ok := env.vars["\x00local:"+args[0].Name]; ok {
+					return v
+				}
+				if v, ok := env.vars[args[0].Name]; ok {
+					return v
+				}
+			}
+			env.fail("local(%s): no such variable", args[0])
 		case "hlen":
 			// output length of the hash function H
 			return Value{S: SInt, Term: "hlenH"}
